@@ -117,6 +117,7 @@ type Job struct {
 	Cells     int      `json:"cells,omitempty"`
 	N         int      `json:"n,omitempty"`
 	Batches   [][]Run  `json:"batches,omitempty"`  // per producer: run-length list of batch sizes
+	Name      string   `json:"name,omitempty"`     // output file name (default job<id>.<ext>): spaces, non-ASCII, format verbs, long names, odd extensions
 	Pre       int      `json:"pre,omitempty"`      // bytes of unrelated content already stored at the output path before the call
 	Share     bool     `json:"share,omitempty"`    // take the renderer value (and, in single-job groups, the model object) from the episode's pool, as a program that keeps them in variables does
 	CloseAt   []int    `json:"close_at,omitempty"` // single producer: call Close() before these batch indices (mid-stream flush)
